@@ -92,6 +92,16 @@ fn check_trrel_history(n: usize, hist: &[(usize, usize)], st: &mut Stats) {
                   fails.push(("contains", format!("{} contains({},{})={} want {}", ctx(), i, j, uf.contains(&i, &j), rf.has(i, j))));
                }
             }
+            // every answer is a set: an element listed twice would be a tuple listed twice by the index built on this
+            for (what, listed) in [("set_of_yields_duplicates", uf.set_of(&i).map(|it| it.cloned().collect::<Vec<usize>>())),
+                                   ("rev_set_of_yields_duplicates", uf.rev_set_of(&i).map(|it| it.cloned().collect::<Vec<usize>>()))] {
+               if let Some(l) = listed {
+                  let distinct: BTreeSet<usize> = l.iter().cloned().collect();
+                  if distinct.len() != l.len() {
+                     fails.push((what, format!("{} element {} listed {:?}", ctx(), i, l)));
+                  }
+               }
+            }
             let so: Option<BTreeSet<usize>> = uf.set_of(&i).map(|it| it.cloned().collect());
             let want_so: BTreeSet<usize> = (0..n).filter(|&j| rf.has(i, j)).collect();
             if rf.mentioned[i] != so.is_some() || so.as_ref().is_some_and(|s| *s != want_so) {
